@@ -231,7 +231,7 @@ theorem C05_insert_then_remove (c c1 c2 : Curve) (nodes : List Rat) (pts : List 
                 split at hns
                 · simp only [Option.some.injEq] at hns; subst hns; exact knots_ne_nil c.kv g0
                 · cases hns
-              obtain ⟨sT, hTM⟩ := fit_left_inverse c.kv k M T E _ hfn hrep g0 g1 hc0 hc1 hTE
+              obtain ⟨sT, hTM⟩ := fit_left_inverse c.kv k M T E _ hfn hrep.toW g0 g1 hc0 hc1 hTE
               have hn0 : 0 < c.kv.npts := by have := g0.deg_lt; omega
               have hn1 : 0 < k.npts := by have := g1.deg_lt; omega
               rw [hc2, ← matPts_matMul T M _ _ _ d sT hrep.shaped hn1 hn0 hn0 pts hlen hdim, hTM, ← hlen,
